@@ -14,6 +14,22 @@ compared cell by cell with population_counts / population_counts_moe.
 
 Property oracle (no model): the fraction the property text prescribes, computed in Python from
 the JSON (null = not present); relational oracle: counts and MoE are linear in the population.
+
+Dimension-type class (round 3, seeded change C17-6: the categorical-date test of the matrix
+`_PopulationProportions` widened to `in (CAT_DATE, DATETIME)`, its std-err twin left alone).  The
+property reserves the within-each-date projection for a CATEGORICAL-date dimension; every other
+kind of dimension - in particular the other "dates", a DATETIME enum variable, and the text /
+binned-numeric enums, MR, CA - divides the population by the table proportion.  `gen_type_case`
+crosses every dimension kind with CAT / CAT_DATE / MR on rows and on columns (CAT x DATETIME,
+DATETIME x CAT, DATETIME x CAT_DATE, MR x DATETIME, text / binned x CAT_DATE ...), 3-D cubes with an
+enum or categorical-date table / rows / columns dimension (a slice other than the first too) and
+enum strands; these go through the same model correspondence (which dimension is categorical-date
+comes from the generator, never from the library's `dimension_type`).  On every case (old classes
+too) a property-text leg `*.property-choice` is added: population_proportions / population_std_err
+(strand: population_proportion_stderrs) must BE the reported proportion / std-err the text selects
+(table; row- or column-wise for a categorical-date dimension; 1 / 0 on a categorical-date strand;
+NaN at differences) and counts / MoE must be that selection x population x reported fraction
+(x 1.959964), so proportion and std-err can not be selected by different tests.
 """
 import copy
 import json
@@ -236,6 +252,11 @@ def _dim(rng, alias, allow_mr=True):
         return gen.make_mr(rng, alias)
     date = r < 0.5
     v = gen.make_cat(rng, alias, date=date, numeric=None)
+    return _decorate(rng, v, alias)
+
+
+def _decorate(rng, v, alias):
+    """view subtotals (incl. differences) on a categorical variable"""
     if rng.random() < 0.5:
         v.view_insertions = gen.random_insertions(rng, v)
         if rng.random() < 0.3:
@@ -261,6 +282,68 @@ def gen_case(rng, k):
     return {"k": k, "strand": strand, "response": resp, "population": pop, "style": style,
             "filter_json": extra, "cat_date": [v.kind == "cat_date" for v in variables],
             "kinds": [v.kind for v in variables], "factor": rng.choice([2, 3, 0.5, 10])}
+
+
+# every kind of dimension against the categorical-date rule: only "cat_date" is a categorical date.
+# (table,) rows, columns; one entry = one strand; "ca" contributes two dimensions
+TYPE_LAYOUTS = [
+    ("cat", "datetime"), ("datetime", "cat"), ("datetime", "cat_date"), ("cat_date", "datetime"),
+    ("mr", "datetime"), ("datetime", "mr"), ("datetime", "datetime"), ("datetime", "text"),
+    ("cat", "text"), ("text", "cat"), ("cat", "binned"), ("binned", "cat"),
+    ("text", "cat_date"), ("cat_date", "binned"), ("binned", "mr"), ("mr", "text"),
+    ("ca",), ("ca", "datetime"), ("datetime", "ca"),
+    ("datetime", "cat", "cat"), ("datetime", "cat_date", "cat"), ("datetime", "cat", "cat_date"),
+    ("cat", "datetime", "cat"), ("cat", "cat", "datetime"), ("cat_date", "datetime", "cat"),
+    ("cat_date", "cat", "datetime"), ("cat", "datetime", "cat_date"), ("cat", "cat_date", "datetime"),
+    ("cat", "mr", "datetime"), ("text", "cat", "binned"), ("cat_date", "cat", "cat"),
+    ("datetime",), ("text",), ("binned",),
+]
+ENUM_KINDS = ("datetime", "text", "binned")
+
+
+def _typed_var(rng, kind, alias):
+    if kind in ENUM_KINDS:
+        return gen.make_enum(rng, alias, kind, n_valid=rng.randint(1, 4))
+    if kind == "mr":
+        return gen.make_mr(rng, alias)
+    if kind == "ca":
+        return gen.make_ca(rng, alias)
+    return _decorate(rng, gen.make_cat(rng, alias, date=kind == "cat_date", numeric=None), alias)
+
+
+def _n_valid(v):
+    if v.kind in ("cat", "cat_date"):
+        return len(gen.valid_cat_ids(v))
+    if v.kind in ("mr", "ca"):
+        return len(v.items)
+    return len([e for e in v.elements if not e["missing"]])
+
+
+def gen_type_case(rng, k):
+    """A slice / strand whose dimensions run over EVERY kind (the layouts in turn, then at random)."""
+    layout = TYPE_LAYOUTS[k] if k < len(TYPE_LAYOUTS) else rng.choice(TYPE_LAYOUTS)
+    variables = [_typed_var(rng, kind, "v%d" % i) for i, kind in enumerate(layout)]
+    sv = gen.Survey(variables, rng.choice([1, 3, 8, 15, 15, 30]), rng)
+    if rng.random() < 0.5:
+        extra, style = gen_filter_stats(rng)
+    else:
+        # a plain filter share, so that the choice of proportion is not drowned in NaN fractions
+        extra = rng.choice([{}, {"filtered": {"weighted_n": rng.randint(1, 9)},
+                                 "unfiltered": {"weighted_n": rng.randint(9, 30)}}])
+        style = "old" if extra else "absent"
+    resp = gen.cube_response(sv, [v.alias for v in variables], filter_stats=extra)
+    # the dimensions of the response ("ca" gives two), the last two are displayed
+    dim_kinds = []
+    for v in variables:
+        dim_kinds.extend(["ca_subvar", "ca_cat"] if v.kind == "ca" else [v.kind])
+    strand = len(dim_kinds) == 1
+    shown = dim_kinds[-1:] if strand else dim_kinds[-2:]
+    n_slices = _n_valid(variables[0]) if len(dim_kinds) == 3 else 1
+    pop = rng.choice([1, 7, 1000, 1000, 12345.5, 250000, 3.25, -40, 10 ** 9, 0])
+    return {"k": "type%s" % k, "strand": strand, "response": resp, "population": pop, "style": style,
+            "filter_json": extra, "cat_date": [x == "cat_date" for x in shown], "kinds": dim_kinds,
+            "factor": rng.choice([2, 3, 0.5, 10]), "slice": rng.randrange(max(n_slices, 1)),
+            "type_layout": "_x_".join(layout)}
 
 
 # ------------------------------------------------------------------------------------
@@ -393,14 +476,22 @@ def impl_run(case):
             return {"error": g}
         (cs, P), (_cs2, P2) = g[1]
     else:
-        P = impl.partition(case["response"], None, population=case["population"])
-        P2 = impl.partition(case["response"], None, population=case["population"] * case["factor"])
+        sl = case.get("slice", 0)
+        g = impl.guarded(lambda: (
+            impl.partition(case["response"], None, sl, population=case["population"]),
+            impl.partition(case["response"], None, sl, population=case["population"] * case["factor"])))
+        if g[0] != "ok":
+            return {"error": g}
+        P, P2 = g[1]
     if case["strand"]:
         names = ("table_proportions", "table_proportion_stderrs", "diff_row_idxs")
+        sel_names = ("population_proportions", "population_proportion_stderrs", "dimension_types")
     else:
         names = ("row_proportions", "column_proportions", "table_proportions", "row_std_err",
                  "column_std_err", "table_std_err", "diff_row_idxs", "diff_column_idxs")
+        sel_names = ("population_proportions", "population_std_err", "dimension_types")
     out = {"in": {n: impl.get(P, n) for n in names},
+           "sel": {n: impl.get(P, n) for n in sel_names},
            "out": {n: impl.get(P, n) for n in ("population_fraction", "population_counts",
                                                "population_counts_moe")},
            "out2": {n: impl.get(P2, n) for n in ("population_counts", "population_counts_moe")},
@@ -460,12 +551,86 @@ def build_term(case, io):
     return "(" + head + body + " end)", None
 
 
+Z_975 = 1.959964
+
+
+def property_choice(case, io, fail):
+    """The property text on the selection of the proportion, without the model: "the table
+    proportion, or for a CATEGORICAL-date dimension the proportion within each date" and "the
+    matching standard error".  Which dimension is a categorical date is the generator's knowledge;
+    the proportions / std-errs / fraction are the implementation's own reported values (C03 / C11 /
+    the fraction leg own them).  Returns a label for the evidence distribution."""
+    import numpy as np
+    I, S = io["in"], io.get("sel")
+    if S is None or any(not _ok(v) for v in I.values()):
+        return "not-evaluated"
+    cd = [bool(x) for x in case["cat_date"]]
+    if not case["strand"] and all(cd):
+        return "not-evaluated (categorical date on both: the text does not say which wins)"
+    if case["strand"]:
+        tp = np.asarray(I["table_proportions"][1], dtype=float)
+        ts = np.asarray(I["table_proportion_stderrs"][1], dtype=float)
+        exp_p = np.ones(tp.shape) if cd[0] else tp.copy()
+        exp_s = np.zeros(ts.shape) if cd[0] else ts
+        diffs = list(I["diff_row_idxs"][1])
+        if diffs:
+            exp_p[diffs] = np.nan
+        chosen = "all-ones" if cd[0] else "table"
+        se_name = "population_proportion_stderrs"
+    else:
+        chosen = "row" if cd[0] else ("column" if cd[1] else "table")
+        exp_p = np.array(I[chosen + "_proportions"][1], dtype=float)
+        exp_s = np.asarray(I[chosen + "_std_err"][1], dtype=float)
+        dr, dc = list(I["diff_row_idxs"][1]), list(I["diff_column_idxs"][1])
+        if dr:
+            exp_p[dr, :] = np.nan
+        if dc:
+            exp_p[:, dc] = np.nan
+        se_name = "population_std_err"
+    ctx = {"sig": "population-proportion-choice", "chosen": chosen, "strand": case["strand"]}
+    expected = [("population_proportions", S["population_proportions"], exp_p),
+                (se_name, S[se_name], exp_s)]
+    f = io["out"]["population_fraction"]
+    if _ok(f) and f[1] is not None:
+        scale = float(case["population"]) * float(f[1])
+        expected.append(("population_counts", io["out"]["population_counts"], exp_p * scale))
+        expected.append(("population_counts_moe", io["out"]["population_counts_moe"],
+                         Z_975 * scale * exp_s))
+    for name, r, exp in expected:
+        if not _ok(r):
+            fail(name + ".property-choice", {"impl": r, "property": chosen + " proportion / std-err"},
+                 exception=r[1], **ctx)
+            continue
+        got = np.asarray(r[1], dtype=float)
+        with np.errstate(all="ignore"):
+            same = got.shape == exp.shape and bool(
+                np.allclose(got, exp, rtol=1e-9, atol=1e-300, equal_nan=True))
+        if not same:
+            where = None
+            if got.shape == exp.shape:
+                bad = ~np.isclose(got, exp, rtol=1e-9, atol=1e-300, equal_nan=True)
+                where = [int(x) for x in np.argwhere(bad)[0]]
+            fail(name + ".property-choice",
+                 {"property": "%s: the %s selection%s" % (name, chosen,
+                                                       "" if name.startswith("population_p") or
+                                                       name == se_name else " x population x fraction"),
+                  "kinds": case["kinds"], "cat_date": case["cat_date"], "first_diff_at": where,
+                  "impl": got if where is None else got[tuple(where)],
+                  "expected": exp if where is None else exp[tuple(where)],
+                  "population": case["population"], "fraction": f[1] if _ok(f) else f,
+                  "dimension_types": [str(getattr(t, "name", t)) for t in S["dimension_types"][1]]
+                  if _ok(S["dimension_types"]) else S["dimension_types"]},
+                 exception=None, **ctx)
+    return "evaluated: " + chosen
+
+
 def compare(case, io, toks):
     fails = []
 
     def fail(what, detail, **ctx):
         fails.append((what, detail, ctx))
 
+    case["_choice"] = property_choice(case, io, fail)
     d = core.Dec(toks)
     tag = d.Z()
     m_frac = d.xq() if tag == 1 else "raises"
@@ -573,7 +738,8 @@ def compare(case, io, toks):
 
 
 def nontrivial(case):
-    return bool(case["filter_json"]) or any(case["cat_date"]) or ("set" in case and case["population"] != 0)
+    return bool(case["filter_json"]) or any(case["cat_date"]) or ("set" in case and case["population"] != 0) \
+        or "type_layout" in case
 
 
 def _replayable(case):
@@ -581,6 +747,9 @@ def _replayable(case):
                               "cat_date", "kinds", "factor")}
     if "set" in case:
         d["set"] = case["set"]
+    for key in ("slice", "type_layout"):
+        if key in case:
+            d[key] = case[key]
     return d
 
 
@@ -647,11 +816,15 @@ def run(tier, seed):
     ob = core.obligations_gate(rep, PID)
     n_cases = 400 if tier == "quick" else 4000
     n_sets = 70 if tier == "quick" else 700
+    n_types = 170 if tier == "quick" else 2000
     rng = random.Random(seed)
     todo, terms = [], []
     all_cases = fixed_cases() + [gen_case(rng, k) for k in range(n_cases)]
     for k in range(n_sets):
         all_cases.extend(gen_set(rng, k))
+    # its own stream: the older classes keep their cases whatever is added here
+    rng_t = random.Random("C17-types-%s" % seed)
+    all_cases.extend(gen_type_case(rng_t, k) for k in range(n_types))
     for case in all_cases:
         io = impl_run(case)
         if "error" in io:
@@ -697,13 +870,29 @@ def run(tier, seed):
             rep.sample({"filter_json": case["filter_json"], "cat_date": case["cat_date"],
                         "population": case["population"], "strand": case["strand"]})
         check_case(case, rep, io, toks)
+        rep.dist("property-text choice of proportion / std-err " + case.get("_choice", "not-evaluated"))
+        if "type_layout" in case:
+            rep.dist("dimension-type class: " + case["type_layout"])
+            if any(x in ENUM_KINDS for x in case["kinds"][-2:]):
+                rep.dist("dimension-type class: displayed ENUM dimension (%s), population %s" % (
+                    "strand" if case["strand"] else "slice", "non-zero" if case["population"] else "zero"))
+            if len(case["kinds"]) == 3:
+                rep.dist("dimension-type class: 3-D cube, slice %s" % ("0" if case["slice"] == 0 else ">=1"))
+            dt = io["sel"]["dimension_types"]
+            rep.dist("dimension-type class, reported dimension_types=" + (
+                "_x_".join(str(getattr(t, "name", t)) for t in dt[1]) if _ok(dt) else "unreadable"))
     rep.cov["rule"] = (
         "20 fixed filter-statistic shapes x {slice, strand} x categorical-date on rows/columns/neither, then "
         "cases from random.Random(seed): CAT|CAT_DATE|MR slices and strands with view subtotals incl. "
         "differences, 0..30 respondents, populations {0,1,7,1000,12345.5,250000,3.25,-40,1e9}, filter "
         "statistics absent / old style / new style / both / categorical-date filter / null dicts / messy "
         "(missing and null keys, empty dicts, zero denominators); non-trivial = filter statistics present or "
-        "a categorical-date dimension; distinct by content hash")
+        "a categorical-date dimension; distinct by content hash.  Dimension-type class (own stream "
+        "random.Random('C17-types-<seed>')): the %d layouts of TYPE_LAYOUTS in turn, then at random - DATETIME / "
+        "TEXT / BINNED_NUMERIC enum dimensions, MR, CA against CAT / CAT_DATE on rows, columns, as table "
+        "dimension of a 3-D cube (any slice) and as strands; every case also through the property-text "
+        "choice leg (population_proportions / population_std_err / counts / MoE == the selected reported "
+        "proportion / std-err, selection by the generator's kinds)" % len(TYPE_LAYOUTS))
     rep.cov["coq_eval_seconds"] = round(coq_s, 2)
     rep.assumptions = [
         "proportions and standard errors fed to the model are the implementation's own public values "
@@ -712,7 +901,8 @@ def run(tier, seed):
     ]
     return rep.finish("proof", ob, trusted_base=core.TRUSTED_BASE_COMMON + [
         "Model/Population.v is hand-written; tied to cube.py, matrix/measure.py, stripe/measure.py and "
-        "cubepart.py by this correspondence run only; the JSON -> fshape parser of the harness"])
+        "cubepart.py by this correspondence run only; the JSON -> fshape parser of the harness",
+        __import__("harness.props.cube_tb", fromlist=["cube_trusted_base"]).cube_trusted_base()])
 
 
 def replay(path):
